@@ -348,6 +348,12 @@ func ruleRefShapes(c *Ctx) {
 					return true
 				}
 			}
+			// the count kept in a parameter object (rel.count)
+			if nm, ty := rootParamRole(t, fr, b.Y); nm != "" {
+				if bt, isB := ty.Underlying().(*types.Basic); isB && bt.Info()&types.IsInteger != 0 {
+					return true
+				}
+			}
 			if f, _ := fieldLoad(y); f != nil && f == own {
 				return true
 			}
@@ -373,6 +379,11 @@ func ruleRefShapes(c *Ctx) {
 		sp.Branch = func(t *Tracer, fr *Frame, i *ssa.If, dir bool) []Ev {
 			if prm, ok := i.Cond.(*ssa.Parameter); ok {
 				return []Ev{{Kind: fmt.Sprintf("%s=%v", prm.Name(), dir)}}
+			}
+			if nm, ty := rootParamRole(t, fr, i.Cond); nm != "" {
+				if bt, isB := ty.Underlying().(*types.Basic); isB && bt.Kind() == types.Bool {
+					return []Ev{{Kind: fmt.Sprintf("%s=%v", nm, dir)}}
+				}
 			}
 			if b, ok := i.Cond.(*ssa.BinOp); ok && b.Op == token.EQL {
 				if k, isC := constInt(b.Y); isC && k == 0 && dir {
